@@ -224,6 +224,7 @@ class _Quantifier(_UnaryOperator):
         if index is None:
             self.neurons.append(neuron)
         else:
+            neuron.bounds_table = self.neurons[index].bounds_table.detach().clone()
             self.neurons[index] = neuron
 
         return neuron
